@@ -195,7 +195,7 @@ func pool(r *ev.Recorder, n int) []keyEnt {
 	return ks
 }
 
-var craftKinds = []string{"valid", "valid-ref-signed", "dishonest-z", "dishonest-z", "dishonest-r0", "hint-swap", "hint-duplicate", "hint-padding", "hint-count-over", "hint-count-decreasing", "hint-count-into-padding",
+var craftKinds = []string{"valid", "valid-ref-signed", "dishonest-z", "dishonest-z", "dishonest-r0", "hint-swap", "hint-duplicate", "hint-padding", "hint-count-over", "hint-count-decreasing", "hint-count-into-padding", "hint-count-chain",
 	"other-message", "other-key", "z-set-extreme", "garbage", "garbage-keep-hints", "challenge-last-byte"}
 
 func TestCrafted(t *testing.T) {
@@ -320,6 +320,11 @@ func TestCrafted(t *testing.T) {
 				c.Sig = o
 				detail = fmt.Sprintf("last count raised from %d to %d: positions are read from the zero padding", total, o[offCnt+7])
 			}
+		case "hint-count-chain":
+			row := rapid.IntRange(0, 7).Draw(rt, "row")
+			v := byte(rapid.IntRange(76, 255).Draw(rt, "v"))
+			c.Sig = pu.HintChain(honest(), row, v, rapid.Uint64().Draw(rt, "chain"))
+			detail = fmt.Sprintf("row %d claims %d positions; position bytes and the count bytes form one strictly increasing chain", row, v)
 		case "other-message":
 			c.Sig = honest()
 			c.Msg = append(append([]byte{}, msg...), byte(rapid.IntRange(0, 255).Draw(rt, "b")))
